@@ -74,8 +74,16 @@ class Lock:
 
 # ---------------------------------------------------------------- Coq side
 def coq_makefile():
-    if (not os.path.exists(os.path.join(COQ, "Makefile")) or
-            os.path.getmtime(os.path.join(COQ, "Makefile")) < os.path.getmtime(os.path.join(COQ, "_CoqProject"))):
+    """_CoqProject lists every theories/*.v and props/*.v present (regenerated, so adding a
+    file needs no shared edit); the Makefile is regenerated when the list changed."""
+    files = sorted("theories/" + f for f in os.listdir(os.path.join(COQ, "theories")) if f.endswith(".v") and not f.startswith("."))
+    files += sorted("props/" + f for f in os.listdir(os.path.join(COQ, "props")) if f.endswith(".v") and not f.startswith("."))
+    text = "-Q theories Pk\n-Q props PkProps\n-arg -w -arg -notation-overridden,-deprecated-hint-without-locality,-ambiguous-paths\n" + "\n".join(files) + "\n"
+    cp = os.path.join(COQ, "_CoqProject")
+    if not os.path.exists(cp) or open(cp).read() != text:
+        open(cp, "w").write(text)
+    mk = os.path.join(COQ, "Makefile")
+    if not os.path.exists(mk) or os.path.getmtime(mk) < os.path.getmtime(cp):
         rc, out, _ = run(["coq_makefile", "-f", "_CoqProject", "-o", "Makefile"], cwd=COQ)
         if rc != 0:
             raise RuntimeError("coq_makefile failed:\n" + out)
